@@ -371,7 +371,10 @@ def gen_edge_between(rng, p1, p2, kind=None, perp_angle=False):
                 bounds = [0.0, 2 * math.pi]
             else:
                 bounds = [0.0, 2.5]  # clipped: contains the arc a -> b (angle < pi/2 .. ) when started at a
-            rim = a
+            # the start of the edge sits at parameter 0.4, away from the seam 0 = 2 pi of the full circle (the closest-
+            # parameter search is discontinuous there: either side is a legitimate answer, DESIGN 2.4)
+            Rm = affine_of(["rotate", -0.4, list(map(float, nrm)), [0.0, 0.0, 0.0]], [0.0, 0.0, 0.0])[0]
+            rim = o + Rm @ (a - o)
             return ["curve", ["circle", list(map(float, o)), list(map(float, rim)), list(map(float, nrm * dq(rng, 1, 3))), bounds], rng.randint(3, 6)]
     raise ValueError(kind)
 
@@ -1222,12 +1225,18 @@ def check_copy_case(case):
         lb = set(tree_leaves(extract(c, g)))
         if la & lb:
             return "copy-shares: %d leaf objects are shared between original and copy" % len(la & lb)
-        for t in case.get("tlist", [["translate", [1.0, 2.0, 3.0]], ["mirror", [1.0, 1.0, 0.0], [0.0, 0.0, 2.0]]]):
-            apply_method(c, t)
-        obs_e2 = observe(e, spec[0])
+        try:
+            amap = transform_entity(c, case.get("tlist", [["translate", [1.0, 2.0, 3.0]], ["mirror", [1.0, 1.0, 0.0], [0.0, 0.0, 2.0]]]), "method")
+            obs_c2 = observe(c, spec[0])
+            obs_e2 = observe(e, spec[0])
+        except Exception as ex:
+            return "exception: %s: %s" % (type(ex).__name__, str(ex)[:150])
     why = oracle_transform(normalise_labels(obs_e), normalise_labels(obs_e2), I)
     if why:
         return "copy-shares: transforming the copy changed the original: " + why
+    why = oracle_transform(normalise_labels(obs_e), normalise_labels(obs_c2), amap)
+    if why and not why.startswith("geometry-undefined"):
+        return "copy-aliased: the transformed copy is not the image of the original: " + why
     return None
 
 
